@@ -3,8 +3,8 @@
    Encoding conventions: booleans 0/1, option Z as -1 where stated, errors as a leading status group.
    Per-property command sets live in model/Run_Cxx.v (run_cxx : Z -> io -> option io). *)
 From CM Require Import lib.Prelude model.RunBase model.Startbit model.Codec model.ArbId.
-From CM Require model.Run_C03 model.Run_C11 model.Run_C17.
-Import Run_C03 Run_C11 Run_C17.
+From CM Require model.Run_C03 model.Run_C11 model.Run_C17 model.Run_C12.
+Import Run_C03 Run_C11 Run_C17 Run_C12.
 
 (* all six (bit_numbering, start_little) notations, in the order the harness uses *)
 Definition notations : list (option Z * bool) :=
@@ -116,5 +116,6 @@ Definition run (cmd : Z) (a : io) : io :=
   if h =? 3 then run_c03 cmd a
   else if h =? 11 then run_c11 cmd a
   else if h =? 17 then run_c17 cmd a
+  else if h =? 12 then run_c12 cmd a
   else run_core cmd a.
 Definition mismatches := mismatches_with run.
